@@ -5,16 +5,19 @@
 package zkmul
 
 //@ func (*Proof).IsValid
+//@   use bits
 //@   nopanic[C10]
 //@   inline
-//@   requires public.X != nil && public.Y != nil && public.C != nil && pkok(public.Prover)
+//@   requires public.X != nil && public.Y != nil && public.C != nil && pkok(public.Prover) && pkvals(public.Prover) && pkbig(public.Prover)
 
 //@ func (*Proof).Verify
+//@   use bits
 //@   nopanic[C10]
 //@   modifies hstate(hash)
-//@   requires group != nil && hash != nil && hash.h != nil && public.X != nil && public.Y != nil && public.C != nil && pkok(public.Prover)
+//@   requires group != nil && hash != nil && hash.h != nil && public.X != nil && public.Y != nil && public.C != nil && pkok(public.Prover) && pkvals(public.Prover) && pkbig(public.Prover)
 
 //@ func challenge
+//@   use bits
 //@   nopanic[C10]
 //@   inline
-//@   requires hash != nil && hash.h != nil && group != nil && public.X != nil && public.Y != nil && public.C != nil && pkok(public.Prover) && commitment != nil
+//@   requires hash != nil && hash.h != nil && group != nil && public.X != nil && public.Y != nil && public.C != nil && pkok(public.Prover) && pkvals(public.Prover) && pkbig(public.Prover) && commitment != nil
